@@ -13,7 +13,7 @@ CLAIMED = {
         technique="coverage-guided fuzzing (libFuzzer fork harness) + Hypothesis token mutation + exhaustive truncation/stress families, ASan/UBSan exit-status oracle",
         text="Generated-input search for crashes, sanitizer reports, assertion failures, hangs and wrong exit statuses of cproc-qbe on "
              "truncated, mutated, fuzzed and pathologically nested/long inputs and on failing input/output descriptors. Exploration, not proof: "
-             "absence of a violation means none was found within the stated case counts. Enumerated sources: 76 fragments x 51 contexts placement units, every C10 catalogue entry followed by uses of what it declares, ~750 hand-written edge units.",
+             "absence of a violation means none was found within the stated case counts. Enumerated sources: 76 fragments x 51 contexts placement units, every C10 catalogue entry followed by uses of what it declares, ~750 hand-written edge units. Stress families include runs of n+1 adjacent string literals with valid and contradicting prefixes.",
         note="Trusts clang 14 ASan/UBSan to expose memory errors and UB; NULL+0 excluded (DESIGN 2.1); stack exhaustion judged on the plain build only; "
              "recorded open findings are suppressed by (kind, faulting function) signature only."),
     "C20": dict(
@@ -30,7 +30,7 @@ CLAIMED = {
         technique="generated-input search with an independent QBE IL validator as oracle (parser + SSA/dominance/class/phi/call checks), differential data size/alignment against clang --target objects, RLIMIT_FSIZE write-fault injection",
         text="Every module cproc-qbe emits with status 0 for corpus files, its own sources, compiling token-mutants, generated programs and generated static initialisers (C07's generator) on the "
              "three targets is parsed and validated by vlib/ilcheck.py; data definitions are compared in size/alignment with the C object as laid "
-             "out by clang; output-failure injection checks that status 0 is only returned with the complete output. Exploration level. Hand-written special units (functions without named parameters, main with every return type, va_list members, dead code after noreturn calls in every expression position) are validated on three targets.",
+             "out by clang; output-failure injection checks that status 0 is only returned with the complete output. Exploration level. Hand-written special units (functions without named parameters, main with every return type, va_list members, dead code after noreturn calls in every expression position) are validated on three targets. Source `strings`: generated units of string literals whose byte images coincide across element types; every literal use is mapped to the definition it names, which must carry the literal's image and element alignment.",
         note="ilcheck.py is written from QBE's IL reference, not run against QBE itself (QBE is not installed); rules are permissive where QBE's behaviour is uncertain."),
     "C01": dict(
         category="exploration", design_ref="DESIGN.md 3/C01, 2.3-2.6",
@@ -39,7 +39,7 @@ CLAIMED = {
         text="Generated UB-free programs (expressions over all arithmetic types with boundary values, bit-fields, conversions, aggregates and their "
              "copies, initialisation, control flow, calls incl. variadic/aggregate, VLAs, alloca, static/thread/compound objects) and a hand-written corpus are "
              "compiled for the three targets; the IL is validated, executed via il2c+gcc+ASan and its chk_* output and exit status compared with two reference "
-             "compilers (and the cmodel prediction for generator A). Exploration level: differences, traps and out-of-bounds accesses found are violations. Later additions: alloca call sites executed repeatedly, members after anonymous members, whole-object copies of over-aligned aggregates, VLA typedefs used in sibling branches, pointer +/- integers of every width, side effects next to result-deciding constants, labels spelled through macros.",
+             "compilers (and the cmodel prediction for generator A). Exploration level: differences, traps and out-of-bounds accesses found are violations. Later additions: alloca call sites executed repeatedly, members after anonymous members, whole-object copies of over-aligned aggregates, VLA typedefs used in sibling branches, pointer +/- integers of every width, side effects next to result-deciding constants, labels spelled through macros. Scene `statement-scope-declarations`: names declared by type names inside controlling expressions and substatements must not outlive the statement.",
         note="IL semantics are il2c's reading of QBE's IL reference (QBE not installed); cases where gcc and clang disagree or report UB are discarded; "
              "constructs of three recorded findings are steered away from (avoid switches) and replayed separately."),
     "C15": dict(
@@ -81,7 +81,7 @@ CLAIMED = {
         text="Every (operator, left type, right type) triple over all arithmetic types, three enum types and bit-fields of ten widths, every integer literal spelling by base/suffix/magnitude, "
              "character/floating literals and ~110 pointer/qualifier/decay/member expressions are typed by cproc (observed via _Generic selection emitted as data) and compared with the "
              "C11 typing model; random nested expressions and random derived-type pairs for __builtin_types_compatible_p extend the search. The enumerated spaces are complete on x86_64 "
-             "(10 % sample on the other two targets in quick, complete in thorough). Enumeration constants (18 boundary values x differently typed initialisers, fixed underlying types, forward declarations), typeof/typeof_unqual and conversions that _Generic cannot see (observed through sizeof/typeof) are tabulated too.",
+             "(10 % sample on the other two targets in quick, complete in thorough). Enumeration constants (18 boundary values x differently typed initialisers, fixed underlying types, forward declarations), typeof/typeof_unqual and conversions that _Generic cannot see (observed through sizeof/typeof) are tabulated too. Probes of the predefined identifier __func__ (array type with terminator) inside function bodies.",
         note="cmodel.py typing rules are the oracle; clang --target (and gcc for compatibility judgements) arbitrate; enum pointees and top-level qualified arrays are excluded from the compatibility pairs because gcc/clang deviate from C11 there."),
     "C14": dict(
         category="exploration", design_ref="DESIGN.md 3/C14",
@@ -89,7 +89,7 @@ CLAIMED = {
         technique="model-based property testing with an independent UTF-8/16/32 + escape encoder (clang --target arbitration), exhaustive escape tables for every prefix, exhaustive catalogue of malformed UTF-8 that must be rejected or passed through unaltered",
         text="Generated string and character literals (all prefixes, all UTF-8 lengths and planes, simple/octal/hex escapes followed by digit-like characters, 2-4 way concatenations, "
              "explicit bounds, pointers, sizeof) are compiled for three targets and the emitted code units compared with an independent encoder; every octal and hex escape value 0..255 is "
-             "checked for every prefix (plain ones valued as char per target); 24 malformed UTF-8 sequences x 5 prefixes x 2 positions and 16 malformed literals must be diagnosed.",
+             "checked for every prefix (plain ones valued as char per target); 24 malformed UTF-8 sequences x 5 prefixes x 2 positions and 16 malformed literals must be diagnosed. Hexadecimal escapes are zero-padded to up to 33 digits.",
         note="Not asserted (implementation-defined or pinned otherwise by the test suite): signedness of u8 string elements, out-of-range escapes in strings, multi-character constants, non-ASCII in unprefixed/u8 character constants."),
     "C12": dict(
         category="exploration", design_ref="DESIGN.md 3/C12, 4",
@@ -97,7 +97,7 @@ CLAIMED = {
         technique="differential property-based testing of macro expansion: generated macro sets and uses, cproc's token stream (hook H1) against the expansion on which gcc's cpp and clang -E agree; IL of program vs IL of its expanded text; redefinition accept/reject; catalogue of invocation errors",
         text="Generated macro sets (object/function-like, variadic, #, self/mutual reference, undef/redefine histories) applied in free token sequences: the token stream cproc-qbe -E delivers must equal the "
              "one both reference preprocessors produce; programs using arithmetic macros must compile to the same IL as their cpp-expanded text; redefinitions are accepted iff benign (both references agree); "
-             "31 malformed definitions/invocations/unsupported directives must be rejected.",
+             "31 malformed definitions/invocations/unsupported directives must be rejected. Use / identical-redefinition / use histories over mutually recursive macros.",
         note="Used only where cpp and clang agree; ##, #if*, #include, _Pragma, __VA_OPT__, predefined macros are documented as unimplemented and not generated (their rejection is checked); one recorded finding "
              "(stringizing an argument that contains a function-like invocation) is steered away from by generating '#' only in units without nested invocations."),
     "C13": dict(
@@ -112,7 +112,7 @@ CLAIMED = {
         engine="hypothesis",
         technique="model-based property testing: generated programs decorated with line markers, #line, splices (also runs of backslash-only lines directly after a directive), multi-line comments and invocations; the location in cproc's diagnostic is compared with a presumed-location tracker written from C11 6.10.4, cross-checked per case against gcc's location",
         text="One catalogue violation is placed on known physical line(s) of a decorated valid program; the first diagnostic must have the form file:line:col: error: and name the presumed file and one of the "
-             "presumed lines the construct occupies. Cases where gcc's reported location disagrees with the tracker are discarded.",
+             "presumed lines the construct occupies. Cases where gcc's reported location disagrees with the tracker are discarded. A third of the cases is compiled a second time as the second input file on the command line: locations must not move.",
         note="Only constructs whose diagnostic is raised at one of their own tokens are used; one recorded finding (file-scope object of incomplete type diagnosed at end of unit) is replayed separately."),
     "C10": dict(
         category="exploration", design_ref="DESIGN.md 3/C10",
@@ -126,7 +126,7 @@ CLAIMED = {
         engine="enumeration+hypothesis",
         technique="bounded-exhaustive enumeration of declaration histories of one identifier plus Hypothesis multi-identifier units; the symbol table read from the emitted IL is compared with the ELF symbol tables of gcc and clang (used only where both accept and agree)",
         text="Histories of up to 3 declarations/definitions (objects: 6 storage-class combinations; functions: 6 specifier combinations; file/block scope; with/without initialiser or body) and random units with "
-             "interleaved histories, block-scope externs/statics, tentative arrays, asm labels and thread-locals: defined symbols with export flag, kind, size and zero-ness, no-linkage objects and undefined references must match the references. Array-typed histories (which declaration gives the length), declarations hidden behind a local of the same name, and hand-written units of thread-locals whose initialisers emit helper objects are included.",
+             "interleaved histories, block-scope externs/statics, tentative arrays, asm labels and thread-locals: defined symbols with export flag, kind, size and zero-ness, no-linkage objects and undefined references must match the references. Array-typed histories (which declaration gives the length), declarations hidden behind a local of the same name, and hand-written units of thread-locals whose initialisers emit helper objects are included. Function histories are also run with respelled specifiers (_Noreturn at any position, reversed order, __inline__).",
         note="gcc 12 and clang 14 (-std=c11 -pedantic-errors, implicit declarations as errors) are the oracle instead of a hand-written linkage model; quick tier samples 1/7 of the length-2/3 histories per seed, thorough enumerates all (and samples length 4); two recorded findings are replayed separately."),
     "C16": dict(
         category="exploration", design_ref="DESIGN.md 3/C16",
@@ -134,7 +134,7 @@ CLAIMED = {
         technique="model-based testing: rapidcheck operation histories against map.c with a std::unordered_map model and engineered hash collisions; Hypothesis scope trees with systematic shadowing checked against the generator's own scope model; goto chains executed via il2c; macro define/undef/use histories over hash-colliding names against a dictionary model; string-literal identity",
         text="(a) map.c linked in-process: insert/lookup/overwrite/reinit histories with keys colliding in the low bits of the table hash for every table size, model and structural invariants after every step. "
              "(b) generated units with up to 5000 (50000 thorough) identifiers, 200-deep scopes and shadowing between enumeration constants, typedefs, objects and tags: every use must denote the declaration the scope model selects; "
-             "5000-label goto chains, 50000 macros and prefix-sharing string literals of every width resolve to their own entity.",
+             "5000-label goto chains, 50000 macros and prefix-sharing string literals of every width resolve to their own entity. Typedefs are repeated in their scope directly and through object-like and function-like macros.",
         note="(a) capacities 1 and 2 can fill completely (lookup of an absent key would not terminate); cproc only uses capacities >= 8, the harness skips and counts those lookups. (b) the scope model is the generator's own; IL executed through il2c."),
     "C08": dict(
         category="exploration", design_ref="DESIGN.md 3/C08",
